@@ -207,6 +207,8 @@ class Unit:
         self.vacuity = False
         self.twins = []
         self.lemmas = {}
+        self.inline_helpers = set()  # names of source functions unknown to the template, to be inlined mechanically at call sites
+        self.inlined = []       # (caller selector, helper name)
         self.extra_consts = []  # names of source-level `const` items to import mechanically (a change introduced them)
         self.stub_out = set()   # selectors whose bodies are replaced by `unimplemented!()` (contract kept): per-function isolation
         self.stubbed = []       # (selector, reason)
@@ -412,6 +414,69 @@ class Unit:
         text = re.sub(r'@SITEK:(\w+)@', number_k, text)
         return text
 
+    # -------- mechanical inlining of helper functions the template does not know ----------
+    def inline_unknown_helpers(self, fs, body, items, text):
+        """A change extracted a few lines of an extracted function into a new private helper (or started calling one
+        the template never needed).  If that helper is a straight-line, single-exit function of the same file (no
+        `return`, no `?`, no loop, plain `name: Type` parameters), its call sites `self.h(args)` / `Self::h(args)` /
+        `h(args)` are replaced by `{ let __h_p = arg; ...; let p: T = __h_p; ...; <helper body> }` - the text the helper
+        was extracted from, so the unit's rules, anchors and contract apply as before.  Anything else is left alone (the
+        function then ends up NOT VERIFIED, never falsely alarmed)."""
+        for _depth in range(3):
+            changed = False
+            for h in sorted(self.inline_helpers):
+                cands = [it for it in items if it.kind == 'fn' and it.name == h and it.has_body and not it.test]
+                if len(cands) != 1:
+                    continue
+                it = cands[0]
+                hsig = text[it.start:it.sig_end]
+                hbody = strip_macros(strip_attrs_in_body(text[it.sig_end:it.end])).strip()
+                toks = [t.text for t in rsx.lex(hbody)]
+                if any(t in ('return', '?', 'loop', 'while', 'for', 'break', 'continue') for t in toks):
+                    continue
+                m = re.search(r'\bfn\s+%s\s*(<[^>]*>)?\s*\((.*)\)\s*(->\s*[^{]+)?$' % re.escape(h), ' '.join(hsig.split()), re.S)
+                if not m or m.group(1):
+                    continue
+                params = split_top(m.group(2))
+                has_self = bool(params) and re.match(r'^(&\s*(mut\s+)?)?(mut\s+)?self$', params[0].strip()) is not None
+                plain = []
+                ok = True
+                for prm in (params[1:] if has_self else params):
+                    pm = re.match(r'^\s*(mut\s+)?([A-Za-z_][A-Za-z_0-9]*)\s*:\s*(.+?)\s*$', prm, re.S)
+                    if not pm:
+                        ok = False
+                        break
+                    plain.append((pm.group(1) or '', pm.group(2), pm.group(3)))
+                if not ok:
+                    continue
+                inner = hbody[1:-1].strip('\n') if hbody.startswith('{') and hbody.endswith('}') else None
+                if inner is None:
+                    continue
+                heads = (['self.%s' % h] if has_self else []) + ['Self::%s' % h, h]
+                for head in heads:
+                    pat = rsx.Pattern(head + '($*args)')
+                    while True:
+                        ms = rsx.find_matches(pat, body)
+                        # skip matches that are part of a longer path/receiver, e.g. `x.h(..)` for head `h`
+                        def standalone(mm):
+                            before = body[:mm[0]].rstrip()
+                            return not before or not re.match(r'[\w.:]', before[-1])
+                        ms = [mm for mm in ms if standalone(mm)]
+                        if not ms:
+                            break
+                        a, b, binds = ms[0]
+                        args = split_top(binds.get('args', ''))
+                        if len(args) != len(plain):
+                            break
+                        pre = ''.join('let __h_%s = %s; ' % (pn, av.strip()) for (_, pn, _), av in zip(plain, args))
+                        pre += ''.join('let %s%s: %s = __h_%s; ' % (mu, pn, ty, pn) for (mu, pn, ty) in plain)
+                        body = body[:a] + '{ ' + pre + '\n' + inner + '\n }' + body[b:]
+                        self.inlined.append((fs.selector, h))
+                        changed = True
+            if not changed:
+                break
+        return body
+
     def emit_extra_consts(self):
         """`const NAME: T = EXPR;` items of the source files this unit extracts from, imported verbatim because an
         extracted body refers to them and the template does not define them (e.g. a magic number was given a name)"""
@@ -500,6 +565,8 @@ class Unit:
         # --- body
         body = strip_attrs_in_body(body)
         body = strip_macros(body)
+        if self.inline_helpers:
+            body = self.inline_unknown_helpers(fs, body, items, text)
         body = self.apply_rules(body, 'body', names, fname)
         fs.valued = ('->' in sig) and not re.search(r'->\s*\(\s*r\s*:\s*\(\s*\)\s*\)', sig)
         stub_reason = None
@@ -771,6 +838,25 @@ ASSUME_PATTERNS = [
 ]
 
 
+def split_top(argtext):
+    """split a parameter / argument list at top-level commas"""
+    out, depth, cur = [], 0, ''
+    for ch in argtext:
+        if ch in '([{<' :
+            depth += 1
+        elif ch in ')]}>':
+            depth -= 1
+        if ch == ',' and depth == 0:
+            if cur.strip():
+                out.append(cur)
+            cur = ''
+        else:
+            cur += ch
+    if cur.strip():
+        out.append(cur)
+    return out
+
+
 def scan_assumptions(text):
     found = []
     clean = rsx.blank_comments(text)
@@ -781,9 +867,10 @@ def scan_assumptions(text):
     return sorted(set(found))
 
 
-def build(unit_name, repo, units_dir, out_dir, vacuity=False, stub_out=None, extra_consts=None):
+def build(unit_name, repo, units_dir, out_dir, vacuity=False, stub_out=None, extra_consts=None, inline_helpers=None):
     u = Unit(unit_name, repo, units_dir)
     u.vacuity = vacuity
+    u.inline_helpers = set(inline_helpers or [])
     u.stub_out = set(stub_out or [])
     u.extra_consts = list(extra_consts or [])
     path = os.path.join(units_dir, unit_name + '.vrs')
@@ -804,6 +891,7 @@ def build(unit_name, repo, units_dir, out_dir, vacuity=False, stub_out=None, ext
         'assumptions': sorted(set(scan_assumptions(text) + getattr(u, 'assumptions', []))),
         'twins': u.twins,
         'stubbed': u.stubbed,
+        'inlined': u.inlined,
         'lemmas': u.lemmas,
         'sites': u.sites,
     }
